@@ -3,7 +3,7 @@ Sibling-implementation cross-check of the two lowerings and the two runtimes."""
 from .. import roles
 from ..callgraph import CallGraph
 from ..rules import cover
-from . import c01_ops, c01_bounds, c01_tables
+from . import c01_ops, c01_bounds, c01_tables, prims
 
 LEVEL = "other"
 EXPLANATION = (
@@ -131,5 +131,6 @@ def run(ck, facts, tier):
         c01_ops.run(ck, facts, cg, anchors, tier)
         c01_bounds.run(ck, facts, cg, anchors, tier, "C01")
         c01_tables.run(ck, facts, cg, anchors, tier)
+    prims.rule_delay(ck, facts, "C01.prims", want=("vm", "wasm"))
     ck.not_decided("equality of outputs for a given program; register allocation, control-flow lowering and memory models are not compared")
     ck.not_decided("anything about wasmtime's execution of the emitted module")
